@@ -130,6 +130,10 @@ pub fn dash_path(path: &Path, dash_array: &[f32], mut dash_offset: f32) -> Path 
                         dashed.move_to(pt.x, pt.y);
                     }
                     state.remaining_length -= len;
+                } else {
+                    // a subpath that isn't begun by a MoveTo starts here
+                    start_point = Some(pt);
+                    dashed.move_to(pt.x, pt.y);
                 }
                 cur_pt = Some(pt);
             }
